@@ -91,6 +91,11 @@ def mtl_backward(
     if len(features) == 0:
         raise ValueError("`features` cannot be empty.")
 
+    # Materialize the iterables first: they may be one-shot (e.g. `module.parameters()`), and the
+    # checks below would otherwise exhaust them.
+    shared_params = list(shared_params)
+    tasks_params = [list(task_params) for task_params in tasks_params]
+
     _check_no_overlap(shared_params, tasks_params)
     _check_losses_are_scalar(losses)
 
@@ -98,9 +103,6 @@ def mtl_backward(
         raise ValueError("`losses` cannot be empty")
     if len(losses) != len(tasks_params):
         raise ValueError("`losses` and `tasks_params` should have the same size.")
-
-    shared_params = list(shared_params)
-    tasks_params = [list(task_params) for task_params in tasks_params]
 
     # Check all parameters before any .grad field is modified, so that a rejected call changes
     # nothing (the task-specific gradients are accumulated before the shared ones are computed).
